@@ -86,7 +86,11 @@ Allowed(type, srcs, dflt) == AllowedFrom(type, srcs, 1, dflt)
 (*      host from the URL, path VERBATIM, "" -> "/"                           *)
 (*   generic variable OTEL_EXPORTER_OTLP_ENDPOINT : "url" (v = base path)     *)
 (*      host from the URL, path = base ++ signal path                         *)
-(*   ill-formed URL kinds: "unparsable", "noscheme", "pathonly"               *)
+(*   ill-formed URL kinds: "unparsable", "noscheme" (host:port without scheme)*)
+(*   "pathonly" (v = an absolute path, no scheme, no host): not a URL an      *)
+(*      exporter can send to; the statement does not say whether such a value *)
+(*      "provides" the path setting: it may be ignored like any ill-formed    *)
+(*      value, or be read as a source that provides the path but no host      *)
 (* Outcome: [who, path]; who = id of the collector that received the request  *)
 (* ("O","S","G") or "none"; path is unobservable ("") when who = "none".      *)
 (* gRPC exporters have no URL path: outcome path is always "".                *)
@@ -113,11 +117,13 @@ Appended(comp, p) == StripSlashes(p) \o SignalPath(comp)  \* generic URL as base
 OptPaths(comp, p) == IF p = "" THEN {"/", SignalPath(comp)} ELSE {p, Clean(p)}
 
 IllFormedURL == {"unparsable", "noscheme", "pathonly", "badurl"}
+PathOf(comp, i, p) == IF i = 2 THEN {Verbatim(p)} ELSE {Appended(comp, p)}
 
 (* normalised view of source i (1 = options, 2 = signal variable, 3 = generic variable):
    [k \in {"absent","ok","bad"}, host \in {"", id}, paths = set of admissible paths ({} = none given)] *)
 EPView(comp, i, s, id) ==
   IF s.k = "absent" THEN [k |-> "absent", host |-> "", paths |-> {}]
+  ELSE IF s.k = "pathonly" THEN [k |-> "bad", host |-> "", paths |-> PathOf(comp, i, s.v)]
   ELSE IF s.k \in IllFormedURL THEN [k |-> "bad", host |-> "", paths |-> {}]
   ELSE IF i = 1 THEN
        CASE s.k = "host"     -> [k |-> "ok", host |-> id, paths |-> {}]
@@ -146,6 +152,10 @@ EPFrom(comp, srcs, i, h, ps) ==
                                      IF ps = {} THEN s.paths ELSE ps)
          \* ill-formed: skipped (lower sources decide) or everything undetermined falls to the default
          [] s.k = "bad"    -> EPFrom(comp, srcs, i + 1, h, ps) \cup EPDone(comp, h, ps)
+                              \* a path-only value may also be read as providing (only) the path
+                              \cup (IF s.paths # {} THEN EPFrom(comp, srcs, i + 1, h, IF ps = {} THEN s.paths ELSE ps)
+                                                           \cup EPDone(comp, h, IF ps = {} THEN s.paths ELSE ps)
+                                    ELSE {})
 EndpointAllowed(comp, srcs) == EPFrom(comp, srcs, 1, "?", {})
 
 (* the ideal endpoint resolution: ill-formed sources are skipped *)
